@@ -252,3 +252,41 @@ def r09e(R):
             'Machine.run can return without stopping the clock (the '
             '`except Exception` path skips it): the clock thread keeps running '
             'and firing', path=path_text(p) if p else None)
+
+
+@rule('R09.f', ('C09',), 'every object that carries a stop flag belongs to one '
+      'run: the clock is bound per VM, not shared', floor=2,
+      decides='a stop affects only the run it was aimed at, and a script '
+              'started meanwhile cannot re-arm the flag of the stopped one')
+def r09f(R):
+    A = R.A
+    clock_iface = A.cls('bardolph.lib.i_lib', 'Clock')
+    roots = [A.func('bardolph.controller.light_module', 'configure')]
+    reach = set(A.rs.reachable(roots))
+    sites = [(impl, kind, f, node) for i, impl, kind, f, node in A.rs.bindings()
+             if i is clock_iface and f in reach]
+    if not sites:
+        raise AnalysisError('R09.f: production binding of i_lib.Clock not found')
+    for impl, kind, f, node in sites:
+        # only a problem when the implementation keeps its liveness in itself
+        has_flag = any(
+            isinstance(n, ast.Assign) and self_attr(n.targets[0])
+            and isinstance(n.value, ast.Constant) and n.value.value is False
+            for c in impl.mro() if 'stop' in c.methods
+            for n in walk_own(c.methods['stop'].node))
+        R.check(f, node, kind == 'bind' or not has_flag,
+                'the clock (%s, which keeps `stop()`\'s flag, the cue time and '
+                'the start time in the object) is bound as ONE shared instance: '
+                'a background script and the current one then share the flag - '
+                'stopping one releases the other\'s delays, and a script '
+                'started in between re-arms the flag of the stopped one'
+                % impl.name, line=node.lineno)
+    # each VM asks for its clock once, in its constructor
+    init = A.func(MACHINE, 'Machine.__init__')
+    got = [n for n in walk_own(init.node) if isinstance(n, ast.Assign)
+           and self_attr(n.targets[0]) and isinstance(n.value, ast.Call)
+           and norm(n.value.func).split('.')[-1] == 'provide'
+           and n.value.args and A.repo.resolve_expr_static(
+               init.module, n.value.args[0]) is clock_iface]
+    R.check(init, 'Machine.__init__: self.<clock> = provide(Clock)', len(got) == 1,
+            'the VM no longer obtains its own clock in its constructor')
